@@ -651,7 +651,7 @@ impl ModCtx {
             3,                                                 // 3 drop(expr)
             if nested { 6 } else { 0 },                        // 4 if / else
             if nested { 3 } else { 0 },                        // 5 block with breaks
-            if nested { 4 } else { 0 },                        // 6 bounded loop
+            if nested { 6 } else { 0 },                        // 6 bounded loop
             if nested { 2 } else { 0 },                        // 7 br_table switch
             if callees.is_empty() { 0 } else { 5 },            // 8 call
             if have_host { 3 } else { 0 },                     // 9 host call
